@@ -39,6 +39,36 @@ CHECKS.update({
             TRUSTED, "3 (C17)"),
 })
 
+CHECKS.update({
+    "C08": ("exhaustive enumeration of byte strings (header product space, k<=2 byte substitutions of a base set, truncations/extensions) fed to every typed parser of the real code; accepted strings checked against a reference header reader",
+            "Every string of the stated spaces goes through the 7 typed parsers, Packet::parse and Unknown::parse; any acceptance of an ill-framed string, or a header accessor disagreeing with the header bytes, is a violation. Exhaustive inside the bounds.",
+            TRUSTED, "3 (C08)"),
+    "C09": ("exhaustive enumeration of reference-encoded packets over walk alphabets and of arbitrary strings; accessor results compared with independent big-endian reads and pointer ranges of the caller's buffer",
+            "Well-formed packets from the independent encoder must be accepted and every accessor must equal the reference read at the RFC offset; every returned slice is checked by pointer arithmetic to lie in the input at the expected offset; arbitrary accepted strings get the same scalar and containment checks.",
+            TRUSTED, "3 (C09)"),
+    "C10": ("exhaustive enumeration of all SDES-framed strings with short bodies over a small alphabet plus reference-encoded packets and their k<=2 substitutions; three-valued reference tokeniser compared with the real parser on every string",
+            "All SDES bodies of 1-3 words over the stated alphabets (complete), every well-formed SDES of the C03 spaces, and deviations thereof are classified must-accept / must-reject / either / unconstrained by an independent tokeniser and compared with Sdes::parse and its accessors, including chunk lengths.",
+            TRUSTED, "3 (C10)"),
+    "C11": ("explicit-state exploration: all tile sequences up to a depth x tail variants and all short byte strings; the real iterator is stepped in lock-step with a two-variable model (tile index, done) on every next() call including calls after exhaustion",
+            "Compound::parse must accept exactly the strings the reference tiling partitions; tiles+3 calls of next() are compared one by one with the model whose items are Packet::parse of each tile.",
+            TRUSTED, "3 (C11)"),
+    "C12": ("exhaustive enumeration of byte strings; generic parser compared with the typed parser named by byte 1, and the full 8x7x6 conversion matrix evaluated on every accepted input",
+            "Packet::parse must equal the typed parser's outcome and payload; unknown types must expose the input by pointer identity; every TryFrom / try_as / From conversion is compared with its specification on every accepted input.",
+            TRUSTED, "3 (C12)"),
+    "C13": ("exhaustive enumeration packets x all 63 legal paddings applied by an independent reference padder; content accessors of the padded packet compared with those of the unpadded one",
+            "Every unpadded well-formed packet of the base set and of a stride through every configuration space is padded by the reference padder with every amount 4..=252; acceptance, padding() and all content accessors (blocks, chunks/items, sources/reason, payload, FCI entries) are compared.",
+            TRUSTED, "3 (C13)"),
+    "C14": ("explicit-state enumeration of all member lists up to a depth over a 20-kind menu (incl. nested compounds, wrapped and third-party members) executed on the real code; reference predicate and concatenation oracle, then parse-back in lock-step",
+            "For every list: accept iff the reference predicate says so, size = sum, bytes = concatenation of the members' own images, Compound::parse + iteration yields each leaf equal to the leaf parsed alone.",
+            TRUSTED, "3 (C14)"),
+    "C15": ("exhaustive enumeration of FCI words/bodies (quick: 118 PIDs x all 65536 bitmasks; thorough: all 2^32 NACK and SLI words) and of all (kind, format, FCI type) gates; reference decoder compared with the real iterators",
+            "Every explored FCI body is decoded by the real parse_fci + iterators and by the reference decoder; gating is checked for 2 kinds x 32 formats x 5 types; the FCI parsers are also driven directly at every length 0..=40.",
+            TRUSTED, "3 (C15)"),
+    "C18": ("exhaustive enumeration of byte strings fed to every parser of the real code; every returned error compared with facts read from the input by a reference header reader",
+            "Every Err from the 7 typed parsers, Packet, Unknown, Compound (+iteration), ReportBlock and the 5 FCI parsers is checked for truthfulness of its payload, and the two must-cases (shorter than minimum; length field mismatch) are checked for the exact error.",
+            TRUSTED, "3 (C18)"),
+})
+
 NOT_YET = {
 }
 
